@@ -558,6 +558,32 @@ def label_near(built, l0, l1):
     return None
 
 
+def label_from_template(built, reg, l0, l1):
+    """the text of a changed region is re-rendered (one clause per line), so the label that followed a group of clauses on one
+    template line no longer sits on the failing clause's line: find the clause in the template and take the label of its line"""
+    if reg is None or not getattr(reg, "body", None):
+        return None
+    lines = built.text.split("\n")
+    want = [t for t in lex.tokenize("\n".join(lines[l0 - 1:l1])) if not lex.is_label(t)]
+    while want and want[-1] == ",":
+        want.pop()
+    if len(want) < 3:
+        return None
+    toks = lex.tokenize_pos(reg.body)
+    plain = [t for t, _, _ in toks]
+    n = len(want)
+    for i in range(len(plain) - n + 1):
+        if plain[i:i + n] == want:
+            end = toks[i + n - 1][2]
+            eol = reg.body.find("\n", end)
+            line = reg.body[reg.body.rfind("\n", 0, end) + 1:(eol if eol >= 0 else len(reg.body))]
+            m = re.findall(r"//\s*@([A-Za-z0-9_.:#\-]+)|\s@(C\d\d\.[A-Za-z0-9_]+)", line)
+            if m:
+                return " ".join(a or b for a, b in m)
+            return None
+    return None
+
+
 class Failure:
     def __init__(self, unit, fn, kind, label, message, rendered, in_region, props):
         # a clause may serve several properties: `// @C19.x @C15.y`; the first label names the obligation
@@ -617,6 +643,10 @@ def classify(built, res, diags):
         if site_line is None and site:
             site_line = site["line_start"]
         reg = region_at(built, site_line) if site_line else None
+        if label is None and where is not None:
+            wreg = region_at(built, where["line_start"])
+            if wreg is not None and wreg.changed and wreg.kind == "fn":
+                label = label_from_template(built, wreg, where["line_start"], where["line_end"])
         fn = reg.name if reg else (enclosing_fn(built, site_line) if site_line else "?")
         failures.append(Failure(built.unit, fn, kind, label, msg, d.get("rendered", ""), reg is not None,
                                 reg.props() if reg else None))
